@@ -188,8 +188,8 @@ fn c18_o1_client_mode_silent() {
 }
 
 //@ ob: C18.O2
-//@ tier: thorough
-//@ cap: 2400
+//@ tier: quick
+//@ cap: 800
 //@ rss: 8.0
 //@ time: 534
 //@ standins: tracing lru vcoll
